@@ -418,6 +418,15 @@ theorem abort_inside {s : St} (h : Inv s) {p : Proc} (hl : s.lock = some p) (fin
     step s fin = { s with inside := [], lock := none, aborted := s.aborted ++ s.cur, cur := [] } := by
   rcases hfin with rfl | rfl <;> simp [step, inside_of_lock h hl, hl, unlock]
 
+theorem killedExiting_inside {s : St} (h : Inv s) {p : Proc} (hl : s.lock = some p) (rm : List Link) :
+    step s (.killedExiting p rm) =
+      { s with bak := some ((bakList s).filter (fun e => !rm.contains e.name)), inside := [], lock := none,
+               plan := s.cur, aborted := [], junk := names ((bakList s).filter (fun e => !rm.contains e.name)),
+               cur := [] } := by
+  have hb := h.heldBak (by simp [hl])
+  obtain ⟨b, hb'⟩ := Option.isSome_iff_exists.1 hb
+  simp [step, inside_of_lock h hl, hl, unlock, hb']
+
 /-- the state `S` in which the block of `p` ends, for a run `enter p :: body` started after `pre` -/
 theorem run_shape (pre body : List Op) (p : Proc)
     (hfree : (run pre init).lock = none) (hbody : ∀ op, op ∈ body → op.keeps p = true) :
